@@ -225,3 +225,36 @@ def binding_selftest(c, trace_module, events, pick, corrupt, what, stateful=Fals
     if got != [1]:
         raise Infra("binding self-test failed for %s: corrupted copy of a recorded event (%s) gave mismatches at %r, expected exactly [1]" % (trace_module, what, got))
     c.cov["binding_selftest"] = "a recorded event was accepted by TLC and its copy with %s was rejected" % what
+
+
+def singles_by_message(gen):
+    """per message: (shortest all-mandatory accepted input, list of single optional elements as octet lists) from depth-1 paths"""
+    out = {}
+    bym = {}
+    for g in gen:
+        if g["g"] and not g["unk"] and TBL[g["m"]]["family"] != "ENV": bym.setdefault(g["m"], []).append(g)
+    for m, gs in bym.items():
+        base = min((g for g in gs if g["n"] == 0), key=lambda g: len(g["inp"]), default=None)
+        if base is None: continue
+        nb = len(base["inp"])
+        singles = [g["inp"][nb:] for g in gs if g["n"] == 1 and g["inp"][:nb] == base["inp"]]
+        if singles: out[m] = (base["inp"], singles)
+    return out
+
+
+def dup_variants(base, singles):
+    """the same element twice with DIFFERENT lengths (long then short, short then long, mid then short)"""
+    out = []; byiei = {}
+    for e in singles: byiei.setdefault(e[0], []).append(e)
+    for iei, es in byiei.items():
+        es = sorted(es, key=len)
+        if len(es) >= 2 and len(es[0]) != len(es[-1]):
+            out.append(base + es[-1] + es[0]); out.append(base + es[0] + es[-1])
+            if len(es) >= 3: out.append(base + es[len(es) // 2] + es[0])
+    return out
+
+
+def wrapped(inp, sht):
+    """a plain message inside a security-protected envelope (what a core network actually receives):
+    EPD, security header type, MAC(4), SQN, then the plain message"""
+    return [0x7E, sht, 0xA1, 0xB2, 0xC3, 0xD4, 0x2A] + inp
